@@ -42,6 +42,8 @@ import (
 //   lookup-found-mismatch / lookup-error-kind   known names resolve, unknown names and "" fail with ErrTermNotFound
 //   synth-256 / synth-base / env-truecolor      the pristine result differs from the reference in the 256-colour
 //                           strings / in inherited fields / in the 24-bit strings (COLORTERM, TCELL_TRUECOLOR table)
+//   name-256color-not-256   NAME-256color of a known base (NAME-88color / NAME-color registered) resolves to an entry with
+//                           fewer than 256 colours or whose SetFg/SetBg do not select the 256 palette indices (built-in database only)
 //   db-unresolved db-alias-unresolved db-no-cursor db-colors-inconsistent db-color-string-wrong db-key-prefix   database obligations;
 //   parameterised strings are judged by the Lean reference (Derived "lookup T <arity> <field> <hex>" lines → class ref:illformed).
 
@@ -368,6 +370,48 @@ func lkDBChecks(name string, e *terminfo.Terminfo, ents map[string]*terminfo.Ter
 	}
 }
 
+// lk256: "Looking up NAME-256color … for a known base synthesizes an entry with the standard 256-colour … sequences".
+// Judged on the built-in database only (no AddTerminfo in the case): whenever NAME-256color resolves and NAME-88color or
+// NAME-color is a registered name, what comes back must offer at least 256 colours and its SetFg / SetBg must select
+// every palette index 0..255 (read by lkSgr; entries of the ECMA-48 family, which all such entries are).
+func lk256(name string, t *terminfo.Terminfo, reg map[string]bool, how string, res *h.Result) {
+	if t == nil || !strings.HasSuffix(name, "-256color") {
+		return
+	}
+	base := strings.TrimSuffix(name, "-256color")
+	if !reg[base+"-88color"] && !reg[base+"-color"] {
+		return
+	}
+	add := func(msg string) {
+		res.Findings = append(res.Findings, h.Finding{Class: "name-256color-not-256", Msg: msg})
+	}
+	if t.Colors < 256 {
+		add(fmt.Sprintf("%s: %q resolves to entry %q with Colors=%d (SetFg=%q): NAME-256color of a known base must have the 256-colour sequences", how, name, t.Name, t.Colors, t.SetFg))
+		return
+	}
+	if !strings.HasPrefix(t.SetCursor, "\x1b[") {
+		return
+	}
+	for _, i := range []int{0, 1, 7, 8, 9, 15, 16, 17, 87, 88, 200, 231, 232, 255} {
+		if fg, bg, ok := lkSgr(t.TParm(t.SetFg, i)); !ok || fg != i || bg != -1 {
+			add(fmt.Sprintf("%s: %q (entry %q): SetFg(%d) = %q selects fg=%d bg=%d (well-formed=%v)", how, name, t.Name, i, t.TParm(t.SetFg, i), fg, bg, ok))
+			return
+		}
+		if fg, bg, ok := lkSgr(t.TParm(t.SetBg, i)); !ok || bg != i || fg != -1 {
+			add(fmt.Sprintf("%s: %q (entry %q): SetBg(%d) = %q selects fg=%d bg=%d (well-formed=%v)", how, name, t.Name, i, t.TParm(t.SetBg, i), fg, bg, ok))
+			return
+		}
+	}
+}
+
+func lkRegNames() map[string]bool {
+	m := map[string]bool{}
+	for n := range terminfo.VerifEntries() {
+		m[n] = true
+	}
+	return m
+}
+
 func execLookup(line string) h.Result {
 	lkInit()
 	var res h.Result
@@ -386,6 +430,10 @@ func execLookup(line string) h.Result {
 		val   terminfo.Terminfo
 	}
 	prisRes := make([]pris, len(ops))
+	hasAdd := false
+	for _, o := range ops {
+		hasAdd = hasAdd || o.kind == "A"
+	}
 	for i, o := range ops {
 		if o.kind != "L" {
 			continue
@@ -409,6 +457,13 @@ func execLookup(line string) h.Result {
 			pr.val = *t
 		}
 		prisRes[i] = pr
+		if !hasAdd {
+			reg := map[string]bool{}
+			for n := range P {
+				reg[n] = true
+			}
+			lk256(name, t, reg, "LookupTerminfo in a pristine registry", &res)
+		}
 		// reference verdicts on the pristine result
 		want, wok := lkSpec(P, env, name)
 		envs := fmt.Sprintf("COLORTERM=%q TCELL_TRUECOLOR=%q", env.ct, env.tt)
@@ -520,11 +575,17 @@ func execLookup(line string) h.Result {
 				} else if t.Name != wantName {
 					add("db-unresolved", fmt.Sprintf("shipped terminal name %q resolves to entry %q, declared for entry %q", name, t.Name, wantName))
 				}
+				if !hasAdd {
+					lk256(name, t, lkRegNames(), "shipped name", &res)
+				}
 				terminfo.VerifRestore(lkSnap)
 			} else if e != nil {
 				t, err := terminfo.LookupTerminfo(name)
 				if t == nil || t.Name != e.Name {
 					add("db-unresolved", fmt.Sprintf("registered name %q does not resolve to its entry %q: %v", name, e.Name, err))
+				}
+				if !hasAdd {
+					lk256(name, t, lkRegNames(), "registered name", &res)
 				}
 				terminfo.VerifRestore(lkSnap)
 				lkDBChecks(name, ents[name], ents, &res)
@@ -742,6 +803,41 @@ func genLookup(g *h.Gen) {
 			}
 		}
 	}
+	// the environment changes BETWEEN two lookups of one family's synthesized names: what a lookup returns is a function of
+	// (registry, environment at the time of that lookup); every ordered pair of the four documented settings
+	// (COLORTERM=truecolor on/off x TCELL_TRUECOLOR=disable on/off), same name twice and the two variants of one base
+	env4 := [][2]string{{"", ""}, {"truecolor", ""}, {"", "disable"}, {"truecolor", "disable"}}
+	hb := []string{"vt220", "sun", "eterm", "xterm", "screen", "rxvt"}
+	if g.Thorough() {
+		hb = bases
+	} else {
+		for k := 0; k < 4; k++ {
+			hb = append(hb, h.Pick(r, bases))
+		}
+	}
+	for _, b := range hb {
+		for _, n1 := range []string{"-256color", "-truecolor"} {
+			for _, n2 := range []string{"-256color", "-truecolor"} {
+				for i, e1 := range env4 {
+					for j, e2 := range env4 {
+						if i == j {
+							continue
+						}
+						l := fmt.Sprintf("lookup E %s %s; L %s; E %s %s; L %s", lkTok(e1[0]), lkTok(e1[1]), lkTok(b+n1), lkTok(e2[0]), lkTok(e2[1]), lkTok(b+n2))
+						if n1 == n2 && r.Chance(50) { // and back again
+							l += fmt.Sprintf("; E %s %s; L %s", lkTok(e1[0]), lkTok(e1[1]), lkTok(b+n1))
+						}
+						g.Emit("%s", l)
+					}
+				}
+			}
+		}
+		// other spellings and values of the two variables
+		for k := 0; k < 4; k++ {
+			n := b + h.Pick(r, []string{"-256color", "-truecolor"})
+			g.Emit("lookup %s; L %s; %s; L %s; %s; L %s", envOp(), lkTok(n), envOp(), lkTok(n), envOp(), lkTok(n))
+		}
+	}
 	n := g.N(2500, 30000)
 	for i := 0; i < n; i++ {
 		var ops []string
@@ -810,7 +906,7 @@ func genLookup(g *h.Gen) {
 
 func init() {
 	h.Register(&h.Engine{Name: "lookup",
-		Rule: "database obligations for every registered/shipped name; lookup histories (1-5 lookups, optional environment settings and synthetic AddTerminfo calls) over registered names, their -color/-88color/-256color/-truecolor variants (also stacked), unknown names and \"\"; distinct = distinct case line; non-trivial = some lookup succeeds or a database entry is examined",
+		Rule: "database obligations for every registered/shipped name; lookup histories (1-5 lookups, optional environment settings and synthetic AddTerminfo calls; directed: environment changed between two lookups of the same / sibling synthesized names, all ordered pairs of the four documented settings) over registered names, their -color/-88color/-256color/-truecolor variants (also stacked), unknown names and \"\"; distinct = distinct case line; non-trivial = some lookup succeeds or a database entry is examined",
 		Gen:  genLookup, Exec: execLookup})
 }
 
